@@ -11,29 +11,45 @@ from harness.extract import reward as x_reward
 from harness.rigs import reward as rig
 
 MANIFEST = {
-    "text": "Lean 4 proof, for every sharing graph, neighbour order, agent declaration order, component list, weight and "
-            "step sequence, about an executable model of science.graph_has_cycle / topological_sort (as written), "
-            "RewardFunction.update, the reward components and PrimaiteGame.setup_reward_sharing / update_agents: cyclic graphs "
-            "are exactly the rejected ones; the evaluation order lists every agent once, dependencies first; each step reward "
-            "is the weighted sum of the components on the post-step state and the agent's latest item, with every shared "
-            "component equal to the other agent's reward of the same step; the rewards do not depend on the evaluation "
-            "order or the declaration order; sticky components keep their value until the next qualifying event and "
-            "non-sticky ones return to zero; totals are sums of step rewards. Tie: Gen/Reward.lean regenerated from "
-            "rewards.py / game.py / science.py + differential rig R-rew through the real PrimaiteGame.from_config "
-            "(every sharing graph on <= 4 agents; agents with two or more shared-reward components, cycles through any of them), "
-            "real update_agents on synthetic states, and real PrimaiteGymEnv / PrimaiteGame runs on the shipped and on generated "
-            "scenarios. The graph handed to graph_has_cycle is compared with the declared shares on every load; a Python step "
-            "oracle (component taps) checks same-step shared values and the weighted sum on the implementation alone.",
-    "note": "C10-specific: the theorems are about exact rational arithmetic (and, for the weighted sum, any associative arithmetic "
-            "with a zero). The rig compares exactly where float arithmetic is exact (dyadic families) and otherwise (decimal weights "
-            "such as 0.4 / 0.05, shipped scenarios as they are) gives the model the exact value of every double and requires the "
-            "implementation's floats to lie within an accumulated forward rounding bound (2^-53 per operation). The simulation state "
-            "is abstracted to the keys the components read.",
-    "technique": "Lean 4 theorems over executable models of the graph functions and the reward layer; model tied by "
-                 "regenerated tables and a differential rig",
+    "text": "Lean 4 proof, for every sharing graph, neighbour order, agent declaration order, component list, weight, state "
+            "dictionary and step sequence, about an executable model of science.graph_has_cycle / topological_sort (as written), "
+            "access_from_nested_dict, the seven reward components' calculate (on the state DICTIONARY and the full history item, "
+            "exceptions included), RewardFunction.update, PrimaiteGame.setup_reward_sharing / update_agents and the reward part of "
+            "PrimaiteGymEnv.reset: cyclic graphs are exactly the rejected ones; the evaluation order lists every agent once, "
+            "dependencies first; each step reward is the weighted sum of the components on the post-step state and the agent's "
+            "latest item, with every shared component equal to the other agent's reward of the same step; every component's value "
+            "depends only on the leaf of the state dictionary it names and on the fields of the agent's OWN latest item it reads "
+            "(non-interference, per component and for the whole step); the rewards do not depend on the evaluation or declaration "
+            "order; sticky components keep their value until the next qualifying event, non-sticky ones return to zero; totals are "
+            "sums of step rewards at every point of an episode, restart at 0 after a reset, and are 0 for agents without components; "
+            "the weighted-sum law holds over any commutative ring, and in any arithmetic with relative rounding error u the code's "
+            "left-to-right loop stays within ((1+u)^(n+1)-1)*sum|w*c| of it (abstract rounding function). "
+            "Tie: Gen/Reward.lean regenerated from rewards.py / game.py / science.py / utils.py / interface.py on every run — the body "
+            "of each calculate is TRANSLATED statement by statement into a small imperative language and proved, for all inputs, to "
+            "compute what the component model computes (semantic tie: a meaning-preserving refactoring passes, a change of meaning "
+            "refutes the theorem); literal defaults; blunt text flags for the hand-transcribed functions. Differential rig R-rew "
+            "through the real PrimaiteGame.from_config (every sharing graph on <= 4 agents; several shares per agent; cycles of every "
+            "length incl. self-sharing), the real science.py functions on EVERY graph with <= 4 nodes incl. self-loops and repeated "
+            "neighbours (thorough: every loop-free graph on 5 nodes), real update_agents on synthetic state dictionaries (also leaves "
+            "of the wrong shape: the exception kinds are compared), resets, agents without reward function, the real "
+            "access_from_nested_dict on synthetic values and on whole real describe_state() dictionaries, and real PrimaiteGymEnv / "
+            "PrimaiteGame runs with resets on the shipped and on generated scenarios. Python oracles on the implementation alone: "
+            "declared sharing graph, cycle <=> rejected, same-step shared values, weighted sum, totals per episode, and a "
+            "non-interference recheck (each calculate re-run on a copy with the state cut down to its own leaf and the item fields "
+            "outside its proved read-set scrambled).",
+    "note": "C10-specific: the theorems are about exact rational arithmetic (weighted sum: any commutative ring). The rig compares "
+            "exactly where float arithmetic is exact (dyadic families) and otherwise (decimal weights such as 0.4 / 0.05, shipped "
+            "scenarios as they are) gives the model the exact value of every double and requires the implementation's floats to lie "
+            "within the accumulated forward rounding bound whose per-sum factor is the one proved in Lemmas/RewardRounding.lean; that "
+            "CPython floats are a rounding function with u = 2^-53 (IEEE-754, no overflow/underflow) is assumed, not proved. How "
+            "describe_state() PRODUCES the dictionary from the simulator objects is not modelled (the dictionary is the model's "
+            "input); for large real dictionaries the rig sends their projection on the components' own key paths, which is proved "
+            "invisible to access_from_nested_dict on those paths.",
+    "technique": "Lean 4 theorems over executable models of the graph functions and the reward layer; components tied by a "
+                 "source-to-AST translation proved equivalent to the models; model tied by regenerated tables and a differential rig",
     "design_ref": "5/C10",
 }
-MODULES = ["PrimaiteModel.Props.C10"]
+MODULES = ["PrimaiteModel.Props.C10", "PrimaiteModel.Props.C10Calc", "PrimaiteModel.Props.C10Total", "PrimaiteModel.Props.C10Float"]
 EXE = "drv_c10"
 
 
@@ -50,7 +66,7 @@ def _diff_case(case: dict):
         raise RuntimeError(f"driver rejected a line of {lines}")
     model = _answers(lines, out)
     cmp_case = dict(case, **capture["observed"]) if case["family"] == "env" else case
-    i = rig.first_diff(cmp_case, impl, model, capture)
+    i = rig.first_diff(cmp_case, impl, model, capture, rig.answer_kinds(lines))
     return i < 0, impl, model, i, lines, capture
 
 
@@ -59,9 +75,9 @@ def _comp_tag(c: dict) -> str:
 
 
 def _sig(case: dict, impl: List[str], model: List[str], i: int) -> dict:
-    if case["family"] == "graph":
-        return {"kind": "model-vs-impl", "line": "graph"}
-    line = "load" if i == 0 else ("step" if i % 2 == 1 else "mem")
+    if case["family"] in ("graph", "access"):
+        return {"kind": "model-vs-impl", "line": case["family"]}
+    line = "load" if i == 0 else "step-or-later"
     comps = sorted({_comp_tag(c) for a in case["agents"] for c in a["comps"]})
     return {"kind": "model-vs-impl", "line": line, "comps": ",".join(comps), "agents": len(case["agents"])}
 
@@ -147,7 +163,7 @@ def _share_coverage(ctx: Ctx, case: dict):
 
 def _oracle_kinds(c: dict) -> List[str]:
     impl, cap = rig.run_impl(c)
-    return [m.split(":")[0][:40] for m in rig.oracle_all(c, impl, cap)]
+    return [m.split(":")[0][:60] for m in rig.oracle_all(c, impl, cap)]
 
 
 def _shrink_oracle(case: dict, key: str) -> dict:
@@ -188,6 +204,9 @@ def replay(rec: dict) -> bool:
         from harness.lib.core import lake_build
         lake_build([EXE])
     r = rec["replay"]
+    if r.get("family") == "oracle-graph":
+        impl, _cap = rig.run_impl(r["case"])
+        return _graph_oracle([k for k, _ in r["case"]["graph"]], {k: nb for k, nb in r["case"]["graph"]}, impl[0]) is None
     if r.get("family") == "oracle":
         kinds = _oracle_kinds(r["case"])
         return (r["kind"] not in kinds) if "kind" in r else not kinds
@@ -196,6 +215,186 @@ def replay(rec: dict) -> bool:
 
 
 # ----------------------------------------------------------------------------------------------- case families
+def _graph_case(keys: List[str], nbrs: Dict[str, List[str]]) -> dict:
+    return {"family": "graph", "graph": [[k, list(nbrs[k])] for k in keys]}
+
+
+def _exhaustive_graphs(ctx: Ctx, rng: Rng):
+    """Bounded-exhaustive family for science.graph_has_cycle / topological_sort against the proved model, generated lazily as
+    (family name, keys in dict order, neighbour lists):
+    * EVERY directed graph on n <= 4 nodes, self-loops included (2^(n*n) arc sets; n = 4: 65 536), keys in a random order,
+      each neighbour collection in a random order;
+    * EVERY graph on n <= 3 nodes whose neighbour collections are lists of length <= 2 with repetition (duplicate edges), in every
+      key order; for n = 4 lists of length <= 3 with repetition, sampled;
+    * thorough: every loop-free graph on 5 nodes (2^20), a quarter of them also with a random non-empty set of self-loops."""
+    for n in range(0, 5):
+        names = [f"n{i}" for i in range(n)]
+        pairs = [(u, v) for u in names for v in names]
+        for mask in range(1 << len(pairs)):
+            nb: Dict[str, List[str]] = {u: [] for u in names}
+            for i, (u, v) in enumerate(pairs):
+                if mask >> i & 1:
+                    nb[u].append(v)
+            if n >= 3:
+                nb = {u: rng.shuffle(vs) for u, vs in nb.items()}
+            yield f"graph-exh{n}", (rng.shuffle(names) if n >= 2 else names), nb
+    # duplicate edges: all neighbour LISTS of length <= 2 (with repetition)
+    for n in (1, 2, 3):
+        names = [f"n{i}" for i in range(n)]
+        lists = [[]] + [[a] for a in names] + [[a, b] for a in names for b in names]
+        for combo in itertools.product(lists, repeat=n):
+            for keys in itertools.permutations(names):
+                yield f"graph-dup{n}", list(keys), dict(zip(names, combo))
+    names = [f"n{i}" for i in range(4)]
+    lists = [[]] + [[a] for a in names] + [[a, b] for a in names for b in names] + [[a, a, b] for a in names for b in names]
+    for _ in range(ctx.scale(6000, 60000)):
+        yield "graph-dup4", rng.shuffle(names), {u: rng.choice(lists) for u in names}
+    if ctx.thorough:
+        names = [f"n{i}" for i in range(5)]
+        pairs = [(u, v) for u in names for v in names if u != v]
+        for mask in range(1 << len(pairs)):
+            nb = {u: [] for u in names}
+            for i, (u, v) in enumerate(pairs):
+                if mask >> i & 1:
+                    nb[u].append(v)
+            keys = rng.shuffle(names)
+            yield "graph-exh5-loopfree", keys, nb
+            if mask % 4 == 0:
+                loops = [u for u in names if rng.chance(1, 3)] or [rng.choice(names)]
+                yield "graph-exh5-selfloops", keys, {u: nb[u] + ([u] if u in loops else []) for u in names}
+
+
+def _graph_oracle(keys: List[str], nb: Dict[str, List[str]], answer: str) -> Optional[str]:
+    """Independent judgement of the implementation's answer on a raw graph: cycle <=> some node reaches itself; otherwise the
+    order lists every node (keys and dangling names) exactly once, each after all its neighbours."""
+    nodes = list(keys) + [v for k in keys for v in nb[k] if v not in keys]
+    nodes = list(dict.fromkeys(nodes))
+    reach = {u: set(nb.get(u, [])) for u in nodes}
+    changed = True
+    while changed:
+        changed = False
+        for u in nodes:
+            new = set()
+            for v in reach[u]:
+                new |= reach[v]
+            if not new <= reach[u]:
+                reach[u] |= new
+                changed = True
+    cyc = any(u in reach[u] for u in nodes)
+    if cyc != answer.startswith("cycle=1"):
+        return f"graph_has_cycle answered {answer.split()[0]} on a graph that is {'cyclic' if cyc else 'acyclic'}"
+    if not cyc:
+        order = [x for x in answer.split("order=", 1)[1].split(",") if x]
+        if sorted(order) != sorted(nodes):
+            return f"topological_sort returned {order}: not every node exactly once ({nodes})"
+        pos = {x: i for i, x in enumerate(order)}
+        for u in keys:
+            for v in nb[u]:
+                if pos[v] >= pos[u]:
+                    return f"topological_sort returned {order}: {u} depends on {v} but comes first"
+    return None
+
+
+def _run_graph_bulk(ctx: Ctx, gen) -> None:
+    """The exhaustive graph family, in chunks: the real science.py functions, the Lean driver and the independent oracle on the
+    same graphs; every answer compared. A disagreement / oracle failure becomes an ordinary `graph` case (replayable)."""
+    import hashlib
+    from primaite.game.science import graph_has_cycle, topological_sort
+    reported = 0
+    total = agree = 0
+    chunk: List[Tuple[str, List[str], Dict[str, List[str]]]] = []
+
+    def flush():
+        nonlocal reported, total, agree
+        if not chunk:
+            return
+        lines, impl = [], []
+        for _fam, keys, nb in chunk:
+            lines.append("graph " + (";".join(f"{k}:{rig.lst(nb[k])}" for k in keys) or "-"))
+            g = {k: list(nb[k]) for k in keys}
+            impl.append("cycle=1" if graph_has_cycle(g) else "cycle=0 order=" + ",".join(topological_sort(g)))
+        model = run_driver(EXE, lines)
+        for (fam, keys, nb), line, a, m in zip(chunk, lines, impl, model):
+            total += 1
+            ctx.count("family:" + fam)
+            ctx.count("graph:" + a.split()[0])
+            ctx.cov["evaluations"] += 1
+            ctx.cov["traces_validated_against_impl"] += 1
+            if len(keys) > 1:
+                ctx._distinct.add(hashlib.sha1(line.encode()).hexdigest())
+            bad = _graph_oracle(keys, nb, a)
+            if bad is not None and reported < 3:
+                reported += 1
+                ctx.violation({"kind": "oracle", "what": "graph functions"}, "C10 oracle fails on the implementation: " + bad,
+                              {"family": "oracle-graph", "case": _graph_case(keys, nb), "oracle_says": bad, "from": fam})
+            if a == m:
+                agree += 1
+            elif reported < 3:
+                reported += 1
+                ctx.violation({"kind": "model-vs-impl", "line": "graph"},
+                              f"science.py differs from the proved model on a raw graph: impl={a!r} model={m!r}",
+                              {"family": "diff", "case": _graph_case(keys, nb), "lines": ["reset", line], "impl": [a], "model": [m],
+                               "first_diff": 0, "from": fam})
+        chunk.clear()
+    for item in gen:
+        chunk.append(item)
+        if len(chunk) >= 100000:
+            flush()
+    flush()
+    ctx.oblige("rig:graph functions agree with the model on the bounded-exhaustive family", "correspondence", agree == total,
+               f"{total - agree} of {total} graphs disagree")
+
+
+def _cycle_config_case(rng: Rng) -> dict:
+    """A configuration whose sharing graph has a cycle of a chosen length (1 = an agent sharing its own reward, 2 = mutual
+    sharing, ... up to all agents), hidden among acyclic arcs, the cycle's arcs anywhere among the agents' components."""
+    n = rng.range(1, 8)
+    length = rng.choice([1, 1, 2, 2, 3, rng.range(1, n)])
+    length = max(1, min(length, n))
+    lab = rng.shuffle(list(range(n)))
+    cyc = lab[:length]
+    arcs = [(cyc[i], cyc[(i + 1) % length]) for i in range(length)]
+    arcs += [(lab[i], lab[j]) for i in range(n) for j in range(i + 1, n) if rng.chance(1, 4)]  # forward-only: acyclic part
+    if rng.chance(1, 4):
+        arcs.append(rng.choice(arcs))  # a share listed twice
+    return rig.gen_game_case(rng, n, rng.shuffle(arcs), rng.shuffle(list(range(n))), n_steps=1)
+
+
+def _access_case(rng: Rng) -> dict:
+    """A synthetic nested value with non-dictionaries on the way, and key paths into it."""
+    keys = ["network", "nodes", "pc1", "srv", "file_system", "services", "a", "b", ""]
+
+    def val(depth: int):
+        k = rng.below(12)
+        if depth <= 0 or k < 3:
+            return rng.choice([None, 0, 5, True, False, 2.5, "", "nodes", "a b", "network nodes pc1", [], ["a"], ["nodes", "pc1"], {}, [["a"]]])
+        if k == 3:
+            return [val(depth - 1) for _ in range(rng.below(3))]
+        d = {}
+        for _ in range(rng.range(1, 4)):
+            d[rng.choice(keys)] = val(depth - 1)
+        if rng.chance(1, 8):
+            return {"__intkeys__": [[rng.range(-1, 3), val(depth - 1)]]}
+        return d
+    state = val(rng.range(1, 5))
+    paths = [[rng.choice(keys) for _ in range(rng.below(5))] for _ in range(6)]
+    # also paths that follow the value down
+    def walk():
+        cur, p = rig.decode_val(state), []
+        while isinstance(cur, dict) and cur and rng.chance(4, 5):
+            ks = [k for k in cur if isinstance(k, str)]
+            if not ks:
+                break
+            k = rng.choice(ks)
+            p.append(k)
+            cur = cur[k]
+        if rng.chance(1, 2):
+            p.append(rng.choice(keys))
+        return p
+    paths += [walk() for _ in range(4)]
+    return {"family": "access", "state": state, "paths": paths, "restrict": rng.shuffle(paths)[:rng.range(0, 4)]}
+
+
 def _families(ctx: Ctx) -> List[Tuple[str, dict]]:
     cases: List[Tuple[str, dict]] = []
     for f in sorted((VERIF / "corpus" / "C10").glob("*.json")):
@@ -214,6 +413,9 @@ def _families(ctx: Ctx) -> List[Tuple[str, dict]]:
     for arcs in rig.all_arc_sets(4, self_loops=False):
         for p in (perms4 if ctx.thorough else [rng.choice(perms4)]):
             cases.append(("exh4", rig.gen_game_case(rng, 4, arcs, list(p), n_steps=1)))
+    # cycles of every length through from_config: self-sharing, mutual sharing, long cycles (must raise at load)
+    for k in range(ctx.scale(400, 6000)):
+        cases.append(("cyclecfg", _cycle_config_case(rng)))
     # random larger graphs (5..7 agents), sparse so that many are acyclic
     for k in range(ctx.scale(150, 4000)):
         n = rng.range(5, 7)
@@ -231,6 +433,20 @@ def _families(ctx: Ctx) -> List[Tuple[str, dict]]:
         arcs = [(lab[u], lab[v]) for u in range(n) for v in range(n) if u < v and rng.chance(1, 2)]
         cases.append(("rich", rig.gen_game_case(rng, n, arcs, rng.shuffle(list(range(n))),
                                                 n_steps=rng.range(3, ctx.scale(20, 40)), rich=True)))
+    # leaves of unexpected shapes and non-dictionaries on the way to them: `calculate` raises (or not) exactly as the model says
+    for k in range(ctx.scale(300, 6000)):
+        n = rng.range(1, 3)
+        lab = rng.shuffle(list(range(n)))
+        arcs = [(lab[u], lab[v]) for u in range(n) for v in range(n) if u < v and rng.chance(1, 2)]
+        cases.append(("badleaf", rig.gen_game_case(rng, n, arcs, rng.shuffle(list(range(n))), n_steps=rng.range(1, 6), rich=True,
+                                                   bad_leaves=True)))
+    # several episodes: resets inside the run (totals restart at 0), agents without reward components / without reward_function
+    for k in range(ctx.scale(250, 5000)):
+        n = rng.range(1, 4)
+        lab = rng.shuffle(list(range(n)))
+        arcs = [(lab[u], lab[v]) for u in range(n) for v in range(n) if u < v and rng.chance(1, 2)]
+        cases.append(("episodes", rig.gen_game_case(rng, n, arcs, rng.shuffle(list(range(n))), n_steps=rng.range(3, 14), rich=rng.chance(1, 2),
+                                                    resets=True, bare_agents=True, decimal=rng.chance(1, 4))))
     # malformed stream: a shared-reward naming an agent that does not exist, duplicate refs
     for k in range(ctx.scale(40, 400)):
         n = rng.range(1, 3)
@@ -271,26 +487,52 @@ def _families(ctx: Ctx) -> List[Tuple[str, dict]]:
     for k in range(ctx.scale(4, 40)):
         cases.append(("env-gen", rig.gen_env_case(rng, ctx.scale(24, 64), f"gen:{rng.choice(list(GEN_FAMILIES))}:{rng.range(1, 3)}",
                                                   rng.choice(["asis", "dyadic"]))))
-    # the two science.py functions on raw graphs (lists with repeats, dangling names)
+    # access_from_nested_dict / projection / serialisation on synthetic nested values
+    for k in range(ctx.scale(500, 10000)):
+        cases.append(("access", _access_case(rng)))
+    # the two science.py functions on raw graphs: random ones here (lists with repeats, dangling names); the bounded-exhaustive
+    # family is streamed separately (_run_graph_bulk)
     for k in range(ctx.scale(600, 20000)):
         cases.append(("rawgraph", rig.gen_raw_graph(rng)))
     return cases
+
+
+def _kind_of(lines: List[str], i: int) -> str:
+    kinds = rig.answer_kinds(lines)
+    return kinds[i] if 0 <= i < len(kinds) else "length"
 
 
 def run(ctx: Ctx):
     with lean_lock():
         ctx.extract("Reward", x_reward.emit)
         ctx.prove(MODULES, exes=[EXE], clean=False, leanchecker=ctx.thorough)
+    # the blunt text ties, function by function (the Gen flags the C10_gen_shape* theorems read are computed from the same report)
+    try:
+        for fn, ok, got in x_reward.shape_report():
+            ctx.oblige(f"shape:{fn}", "extractor", ok, "" if ok else
+                       f"{fn}: the source no longer has the text the model transcribes (semantic change or harmless refactor: see the "
+                       f"differential families):\n{got}")
+    except Exception as e:
+        ctx.oblige("shape:report", "extractor", False, f"{type(e).__name__}: {e}")
     ctx.cov["rule"] = ("cases = (agent set with reward components and weights, sharing graph, declaration order, step sequence of "
-                       "(post-step state, per-agent history item)) or a raw graph; non-trivial when the load is refused, or some "
-                       "agent has a shared component, or a sticky/non-sticky component sees a step without qualifying event; "
-                       "distinct by canonical JSON")
+                       "(post-step state dictionary, per-agent history item), resets) or a raw graph or (state dictionary, key paths); "
+                       "non-trivial when the load is refused, or some agent has a shared component, or a sticky/non-sticky component "
+                       "sees a step without qualifying event, or a component raises; distinct by canonical JSON")
+    _run_graph_bulk(ctx, _exhaustive_graphs(ctx, ctx.rng.fork("graphs")))
     cases = _families(ctx)
     impl_all, lines_all, bounds, captures = [], [], [], []
-    for name, case in cases:
+    k = 0
+    while k < len(cases):
+        name, case = cases[k]
+        k += 1
         impl, capture = rig.run_impl(case)
         capture["oracle"] = rig.oracle_all(case, impl, capture)  # the property's own oracle, on the implementation only
         capture.pop("game", None)
+        if capture.get("sim_exception"):
+            ctx.count("env:run cut short by an exception outside the reward layer")
+            ctx.notes.append("exception outside the reward layer during an env run (run compared up to that step): " + capture.pop("sim_exception"))
+        for aux in capture.pop("aux", []):  # whole real state dictionaries met by an env run: access / projection / serialisation
+            cases.append(("access-real", aux))
         lines = rig.model_lines(case, capture)
         bounds.append((len(lines_all), len(lines)))
         lines_all += lines
@@ -299,78 +541,123 @@ def run(ctx: Ctx):
     model_all = run_driver(EXE, lines_all)
     agree = 0
     oracle_kinds: set = set()   # each kind of oracle failure is reported once (first case that shows it, shrunk)
-    diff_lines: Dict[str, int] = {}  # model-vs-implementation disagreements: at most 2 per answer kind (load / step / mem)
+    diff_lines: Dict[str, int] = {}  # model-vs-implementation disagreements: at most 2 per answer kind
     for (name, case), impl, (st, ln), capture in zip(cases, impl_all, bounds, captures):
         lines = lines_all[st:st + ln]
         out = model_all[st:st + ln]
         if "bad-op" in out:
-            raise RuntimeError(f"driver rejected a line of case {name}: {lines[out.index('bad-op')]!r}")
+            raise RuntimeError(f"driver rejected a line of case {name}: {lines[out.index('bad-op')][:300]!r}")
         model = _answers(lines, out)
+        kinds = rig.answer_kinds(lines)
         ctx.cov["traces_validated_against_impl"] += 1
         fam = name.split(":")[0]
         ctx.count("family:" + fam)
         if case["family"] == "env":
             case = dict(case, **capture["observed"])  # what the real run produced: agents, per-step states and items
-        if case["family"] == "env":
             ctx.count("env-source:" + case.get("source", "uc2").split(":")[0] + ":" + case.get("weights", "dyadic"))
-            for stp in case["steps"]:  # what the real describe_state() showed the components
-                for _n, _s, codes, _f in stp["state"]["services"]:
-                    ctx.count("env-state:web-server codes " + ("none" if not codes else ("all-200" if set(codes) == {200} else "some-not-200")))
-                for _n, hist in stp["state"]["browsers"]:
-                    ctx.count("env-state:browser last outcome " + (hist[-1] if hist else "empty"))
-                for _n, _fo, _fi, h in stp["state"]["files"]:
-                    ctx.count("env-state:file health %d" % h)
+            ctx.count("env:resets", sum(1 for stp in case["steps"] if stp.get("reset_after")))
+            for stp in case["steps"]:  # what the real describe_state() showed the components (read off the projected dictionary)
+                for nname, nd in (stp["dict"].get("network", {}).get("nodes", {}) or {}).items():
+                    if not isinstance(nd, dict):
+                        continue
+                    for sv in (nd.get("services") or {}).values():
+                        codes = sv.get("response_codes_this_timestep") if isinstance(sv, dict) else None
+                        ctx.count("env-state:web-server codes " + ("none" if not codes else ("all-200" if set(codes) == {200} else "some-not-200")))
+                    wb = (nd.get("applications") or {}).get("web-browser")
+                    if isinstance(wb, dict):
+                        hist = wb.get("history") or []
+                        ctx.count("env-state:browser last outcome " + (str(hist[-1].get("outcome")) if hist else "empty"))
+                    for fo in ((nd.get("file_system") or {}).get("folders") or {}).values():
+                        for fi in (fo.get("files") or {}).values():
+                            ctx.count("env-state:file health %s" % fi.get("health_status"))
                 for it in stp["items"].values():
                     if len(it["request"]) == 6 and it["request"][3] == "application" and it["request"][5] == "execute":
                         ctx.count("env-item:%s execute %s" % (it["request"][4], it["status"]))
         if case["family"] in ("game", "env"):
             _share_coverage(ctx, case)
             ctx.count("compare:" + ("exact" if case.get("exact", True) else "within-rounding-bound"))
-            kinds = {rig_kind for a in case["agents"] for rig_kind in (_comp_tag(c) for c in a["comps"])}
-            for kd in kinds:
+            ctx.count("noninterference-rechecks(calculate re-run on own leaf + own read fields only)", capture.get("rechecked", 0))
+            kindset = {rig_kind for a in case["agents"] for rig_kind in (_comp_tag(c) for c in a["comps"])}
+            for kd in kindset:
                 ctx.count("comp:" + kd)
+            ctx.count("agents-without-components", sum(1 for a in case["agents"] if not a["comps"]))
             ctx.count("load:" + model[0].split()[0] + ("-" + model[0].split()[1] if model[0].startswith("raised") else ""))
+            for kd, ans in zip(kinds, model):
+                if kd == "step":
+                    ctx.count("step:" + (ans.split()[1] if ans.startswith("raised") else ans.split()[0]))
+                if kd == "envreset":
+                    ctx.count("reset:" + ans.split()[0])
             ctx.count("steps", len(case["steps"]))
-            ctx.count("agents:%d" % len(case["agents"]))
+            ctx.count("agents:%d" % min(len(case["agents"]), 9))
             nontrivial = model[0].startswith("raised") or any(c["kind"] == "shared" for a in case["agents"] for c in a["comps"]) \
-                or any("sticky" in c for a in case["agents"] for c in a["comps"])
+                or any("sticky" in c for a in case["agents"] for c in a["comps"]) or any(a.startswith("raised") for a in model)
+            canonical = {k2: v for k2, v in case.items() if k2 != "steps"}
+            canonical["steps"] = [{k2: v for k2, v in stp.items() if k2 != "dict"} | ({"fp": rig.fingerprint_words(rig.pyval_words(stp["dict"]))} if "dict" in stp else {})
+                                  for stp in case["steps"]]
+        elif case["family"] == "access":
+            for ans in model[1:-1]:
+                ctx.count("access:" + " ".join(ans.split()[:2] if ans.startswith("raised") else ans.split()[:1]))
+            nontrivial = True
+            canonical = {"family": "access", "fp": model[0], "paths": case["paths"], "restrict": case["restrict"]}
         else:
             ctx.count("graph:" + model[0].split()[0])
             nontrivial = len(case["graph"]) > 1
-        ctx.case(case, nontrivial)
+            canonical = case
+        ctx.case(canonical, nontrivial)
         for orc in capture["oracle"]:
-            kind = orc.split(":")[0][:40]
-            if kind in oracle_kinds or len(oracle_kinds) >= 8:
+            kind = orc.split(":")[0][:60]
+            if kind in oracle_kinds or len(oracle_kinds) >= 10:
                 continue
             oracle_kinds.add(kind)
-            ocase = _shrink_oracle(case, kind) if case["family"] == "game" else case
+            ocase = _shrink_oracle(case, kind) if case["family"] == "game" else _slim(case)
             ctx.violation({"kind": "oracle", "what": kind}, "C10 oracle fails on the implementation: " + orc,
                           {"family": "oracle", "case": ocase, "kind": kind, "oracle_says": orc, "from": name})
-        if rig.first_diff(case, impl, model, capture) < 0:
+        i0 = rig.first_diff(case, impl, model, capture, kinds)
+        if i0 < 0:
             agree += 1
-            if impl != model:
+            if impl != model and case["family"] in ("game", "env"):
                 ctx.count("rounding:floats-differ-from-exact-sum-within-bound")
-            if fam in ("rich", "exh4", "big", "env"):
-                ctx.sample({"case": name, "lines": lines[:10], "answers": model[:3]}, cap=4)
+            if fam in ("rich", "exh4", "big", "env", "badleaf", "episodes"):
+                ctx.sample({"case": name, "lines": [l[:400] for l in lines[:10]], "answers": model[:3]}, cap=6)
             continue
-        i0 = rig.first_diff(case, impl, model, capture)
-        lk = "graph" if case["family"] == "graph" else ("load" if i0 == 0 else ("step" if i0 % 2 == 1 else "mem"))
+        lk = _kind_of(lines, i0)
         if diff_lines.get(lk, 0) >= 2:
             continue
         diff_lines[lk] = diff_lines.get(lk, 0) + 1
         if case["family"] == "env":
             # re-run what the real pipeline produced through the synthetic surface: if it still disagrees it can be shrunk
-            synth = {"family": "game", "agents": case["agents"], "steps": case["steps"], "exact": case.get("exact", True)}
-            if not _diff_case(synth)[0]:
-                case = synth
+            synth = {"family": "game", "agents": case["agents"], "exact": case.get("exact", True),
+                     "steps": [{"state": {"raw": stp["dict"]}, "items": stp["items"], **({"reset_after": True} if stp.get("reset_after") else {})}
+                               for stp in case["steps"]]}
+            try:
+                if not _diff_case(synth)[0]:
+                    case = synth
+            except Exception:
+                pass
         small = _shrink(case)
-        ok, impl2, model2, i2, lines2, _cap = _diff_case(small)
+        try:
+            ok, impl2, model2, i2, lines2, _cap = _diff_case(small)
+        except Exception:
+            ok = True
         if ok:
             small = case
-            ok, impl2, model2, i2, lines2, _cap = _diff_case(case)
-        ctx.violation(_sig(small, impl2, model2, i2),
-                      f"reward layer differs from the proved model at answer {i2}: impl={impl2[i2] if 0 <= i2 < len(impl2) else None!r} "
-                      f"model={model2[i2] if 0 <= i2 < len(model2) else None!r}",
-                      {"family": "diff", "case": small, "lines": lines2, "impl": impl2, "model": model2, "first_diff": i2, "from": name})
+            if case["family"] == "env":
+                impl2, model2, i2, lines2 = impl, model, i0, lines
+            else:
+                ok, impl2, model2, i2, lines2, _cap = _diff_case(case)
+        sig = {"kind": "model-vs-impl", "line": _kind_of(lines2, i2)}
+        if small["family"] in ("game", "env"):
+            sig["comps"] = ",".join(sorted({_comp_tag(c) for a in small["agents"] for c in a["comps"]}))
+            sig["agents"] = len(small["agents"])
+        ctx.violation(sig,
+                      f"reward layer differs from the proved model at answer {i2} ({_kind_of(lines2, i2)}): "
+                      f"impl={impl2[i2][:300] if 0 <= i2 < len(impl2) else None!r} model={model2[i2][:300] if 0 <= i2 < len(model2) else None!r}",
+                      {"family": "diff", "case": _slim(small), "lines": [l[:2000] for l in lines2[:200]], "impl": impl2[:200], "model": model2[:200],
+                       "first_diff": i2, "from": name})
     ctx.oblige("rig:R-rew agrees on every trace", "correspondence", agree == len(cases),
                f"{len(cases) - agree} of {len(cases)} traces disagree")
+
+
+def _slim(case: dict) -> dict:
+    """A case as stored in a replay file (whole real state dictionaries can be large: they are kept, but only once)."""
+    return case
